@@ -23,6 +23,23 @@ import (
 
 // C17 — discovered target sets follow discovery updates and reloads without gaps.
 
+// c17JobName: the configured name of job letter j. Job C is called "xAx": its name CONTAINS the name of job A
+// (node / node-exporter), which no comparison of job names may confuse.
+func c17JobName(j byte) string {
+	if j == 'C' {
+		return "xAx"
+	}
+	return string(j)
+}
+
+// c17Letter is the inverse of c17JobName.
+func c17Letter(name string) string {
+	if name == "xAx" {
+		return "C"
+	}
+	return name
+}
+
 func c17Cfg(jobs string) string {
 	s := "scrape_configs:\n"
 	for _, j := range jobs {
@@ -32,7 +49,7 @@ func c17Cfg(jobs string) string {
 			regex = "yes|YES"
 			j = j - 'a' + 'A'
 		}
-		s += fmt.Sprintf("- job_name: %c\n  relabel_configs:\n  - {source_labels: [drop], regex: \"%s\", action: drop}\n  static_configs:\n  - targets: [\"p:1\"]\n", j, regex)
+		s += fmt.Sprintf("- job_name: %s\n  relabel_configs:\n  - {source_labels: [drop], regex: \"%s\", action: drop}\n  static_configs:\n  - targets: [\"p:1\"]\n", c17JobName(byte(j)), regex)
 	}
 	if jobs == "" {
 		s += "- job_name: zz\n  static_configs:\n  - targets: [\"p:1\"]\n"
@@ -134,7 +151,7 @@ func c17U(u map[string]int) map[string][]*targetgroup.Group {
 	m := map[string][]*targetgroup.Group{}
 	for j, v := range u {
 		if v >= 0 {
-			m[j] = c17Groups(j[0], v)
+			m[c17JobName(j[0])] = c17Groups(j[0], v)
 		}
 	}
 	return m
@@ -160,7 +177,8 @@ func addrOf(t *discovery.SDTargets) string {
 
 func (s *c17Sys) view(universe map[string]uint64) c17View {
 	v := c17View{Active: map[string][]string{}, Dropped: map[string][]string{}}
-	for j, ts := range s.d.ActiveTargets() {
+	for jn, ts := range s.d.ActiveTargets() {
+		j := c17Letter(jn)
 		v.Active[j] = []string{}
 		seen := map[string]bool{}
 		for _, t := range ts {
@@ -172,7 +190,8 @@ func (s *c17Sys) view(universe map[string]uint64) c17View {
 		}
 		sort.Strings(v.Active[j])
 	}
-	for j, ts := range s.d.DropTargets() {
+	for jn, ts := range s.d.DropTargets() {
+		j := c17Letter(jn)
 		v.Dropped[j] = []string{}
 		for _, t := range ts {
 			v.Dropped[j] = append(v.Dropped[j], addrOf(t))
@@ -180,7 +199,7 @@ func (s *c17Sys) view(universe map[string]uint64) c17View {
 		sort.Strings(v.Dropped[j])
 	}
 	for _, t := range s.d.ActiveTargetsByHash() {
-		v.ByHash = append(v.ByHash, t.Job+"/"+addrOf(t))
+		v.ByHash = append(v.ByHash, c17Letter(t.Job)+"/"+addrOf(t))
 	}
 	sort.Strings(v.ByHash)
 	for name, h := range universe {
@@ -197,9 +216,9 @@ func c17Universe() map[string]uint64 {
 	out := map[string]uint64{}
 	info, _ := pipe.LoadInfo(c17Cfg("ABC"))
 	for _, j := range "ABC" {
-		act, _ := pipe.Discovered(info, []map[string][]*targetgroup.Group{{string(j): c17Groups(byte(j), 2)}})
+		act, _ := pipe.Discovered(info, []map[string][]*targetgroup.Group{{c17JobName(byte(j)): c17Groups(byte(j), 2)}})
 		for h, t := range act {
-			out[t.Job+"/"+addrOf(t)] = h
+			out[c17Letter(t.Job)+"/"+addrOf(t)] = h
 		}
 	}
 	return out
@@ -277,7 +296,7 @@ func c17Alphabet(thorough bool) []c17Op {
 		}
 	}
 	ops = append(ops, c17Op{Kind: "update", U: map[string]int{"A": 2, "B": 1, "C": 2}}, c17Op{Kind: "update", U: map[string]int{"C": 1}})
-	for _, j := range []string{"AB", "A", "B", "ABC", "aB", "Ab"} {
+	for _, j := range []string{"AB", "A", "B", "ABC", "aB", "Ab", "BC"} {
 		ops = append(ops, c17Op{Kind: "reload", Jobs: j})
 	}
 	if !thorough {
@@ -484,7 +503,8 @@ func c17Sched(x *vrt.X, sc c17Scenario) (ops []porcupine.Operation, sch *vrt.Sch
 		read := func(client int) {
 			call := tick()
 			out := map[string][]string{}
-			for j, ts := range s.d.ActiveTargets() {
+			for jn, ts := range s.d.ActiveTargets() {
+				j := c17Letter(jn)
 				out[j] = []string{}
 				for _, t := range ts {
 					out[j] = append(out[j], addrOf(t))
